@@ -72,13 +72,14 @@ func main() {
 		noReplay := fs.Bool("noreplay", false, "")
 		repoDir := fs.String("repo", "/repo", "repository tree to check (scratch worktrees for seeded-defect evaluation)")
 		tag := fs.String("tag", "", "scratch tag: separate output / evidence location")
+		stopAfter := fs.Int("stopafter", 0, "stop exploring after this many candidate findings (seeded-defect evaluation; 0 = explore everything)")
 		fs.Parse(os.Args[2:])
 		if *tier == "" {
 			*tier = "quick"
 		}
 		var seed int64
 		fmt.Sscan(os.Getenv("VERIF_SEED"), &seed)
-		cfg := &sym.CheckConfig{Property: *prop, Tier: *tier, Seed: seed, RepoDir: *repoDir, VerifDir: verifDir(), Workers: *workers, OnlyH: *only, MaxSec: *maxSec, NoReplay: *noReplay, Tag: *tag}
+		cfg := &sym.CheckConfig{Property: *prop, Tier: *tier, Seed: seed, RepoDir: *repoDir, VerifDir: verifDir(), Workers: *workers, OnlyH: *only, MaxSec: *maxSec, NoReplay: *noReplay, Tag: *tag, StopAfter: *stopAfter}
 		out := sym.RunCheck(cfg)
 		os.Exit(out.ExitCode)
 	case "refcheck":
